@@ -30,9 +30,30 @@ def to_t(t):
     return ('t', tuple(to_t(c) for c in t[1]))
 
 
-def pack_case(t, model, spec):
-    return core.case([{'op': 'sdc.pack', 'type': sm.type_spec(t), 'spec': spec}],
-                     kind='pack', t=t, type=sm.type_str(t), model=sm.enum_spec(model))
+def pack_case(t, model, spec, then=None):
+    op = {'op': 'sdc.pack', 'type': sm.type_spec(t), 'spec': spec}
+    meta = dict(kind='pack', t=t, type=sm.type_str(t), model=sm.enum_spec(model))
+    if then:
+        # then = [(step, t_k, model_k, spec_k)]: the SAME typification object is changed in place, then used again
+        op['then'] = [dict(step, spec=sp) for step, _t, _m, sp in then]
+        meta['then'] = [{'t': tk, 'type': sm.type_str(tk), 'model': sm.enum_spec(mk)} for _st, tk, mk, _sp in then]
+    return core.case([op], **meta)
+
+
+def rename_leaves(t, rnd, p):
+    if t[0] == 'e':
+        return ('e', 'R1') if rnd.random() < p else t
+    if t[0] == 's':
+        return ('s', rename_leaves(t[1], rnd, p))
+    return ('t', tuple(rename_leaves(c, rnd, p) for c in t[1]))
+
+
+def subst_type(t, name, by):
+    if t[0] == 'e':
+        return by if t[1] == name else t
+    if t[0] == 's':
+        return ('s', subst_type(t[1], name, by))
+    return ('t', tuple(subst_type(c, name, by) for c in t[1]))
 
 
 def unpack_case(t, data, origin):
@@ -48,6 +69,13 @@ def judge(res, cs, cr):
     ev = cr.events[0]
     res.cover('depth:%d' % sm.type_depth(t))
     if meta['kind'] == 'pack':
+        for k, (m2, ev2) in enumerate(zip(meta.get('then', []), ev.get('more', []))):
+            # later packs through the same (changed in place) typification object: judged as packs of their own
+            sub = {'ops': cs['ops'], 'meta': dict(kind='pack', t=m2['t'], type=m2['type'], model=m2['model'])}
+            judge(res, sub, type('CR', (), {'events': [ev2], 'death': None, 'hang': False})())
+            res.cover('typification-changed-in-place')
+        if len(meta.get('then', [])) != len(ev.get('more', [])):
+            res.harness_error('sdc.pack: steps missing in the reply')
         model = sm.from_obs(meta['model'])
         bad = None
         if ev['typestr'] != meta['type']:
@@ -191,6 +219,27 @@ def gen_pack_cases(desc, env):
             g2 = sm.Gen(rnd, base=(1, 2), lazy=0.0, max_set=1)
             m2, s2 = g2.value(t, size_hint=rnd.choice([0, 1, 2])) if t[0] == 's' else g2.value(t)
             cases.append(pack_case(t, m2, s2))
+            if rnd.random() < 0.3:
+                # a generic typification instantiated in place (SubstituteBase) / overwritten by assignment between two packs
+                t0 = rename_leaves(t, rnd, rnd.choice([0.3, 0.6, 1.0]))
+                then = []
+                cur = t0
+                for _ in range(rnd.choice([1, 1, 2])):
+                    if rnd.random() < 0.75:
+                        by = g.rand_type(rnd.choice([0, 1, 1, 2]))
+                        if rnd.random() < 0.3:
+                            by = rename_leaves(by, rnd, 0.5)
+                        cur = subst_type(cur, 'R1', by)
+                        step = {'subst': {'R1': sm.type_spec(by)}}
+                    else:
+                        cur = rename_leaves(g.rand_type(depth, top_set=rnd.random() < 0.6), rnd, 0.3)
+                        step = {'assign': sm.type_spec(cur)}
+                    if sm.type_depth(cur) > 7:
+                        break
+                    mk, sk = g2.value(cur, size_hint=rnd.choice([0, 1, 2])) if cur[0] == 's' else g2.value(cur)
+                    then.append((step, cur, mk, sk))
+                m0, s0 = g2.value(t0, size_hint=rnd.choice([0, 1, 2])) if t0[0] == 's' else g2.value(t0)
+                cases.append(pack_case(t0, m0, s0, then))
     return cases
 
 
